@@ -43,6 +43,12 @@ def gen_scenario(rng, tier, big=False):
         scn['defs'] = [{'type': 'simple', 'pats': [r'(\S*).* (\S+)$'], 'tag': 't1', 'store': True}]
         scn['regs'] = [[0, k] for k in range(nfiles)]
         scn['max_parallel_tasks'] = rng.choice([2, 3, 8])
+    if not big and rng.random() < 0.3:
+        # some of the files are gzip archives (rotated logs next to the live one): a worker
+        # hands their results over like those of any other file
+        for f in scn['files']:
+            if f['content'] and rng.random() < 0.5:
+                f['gzip'] = {'level': rng.choice([1, 6, 9]), 'mtime': 0}
     scn['_delays'] = rng.choice([0, 0, 1, 3])          # max ms
     scn['_dseed'] = rng.randrange(1 << 30)
     if not big and rng.random() < 0.25:
